@@ -947,6 +947,6 @@ example : checkIds [some { path := [97], lb := Lbuf.make, id := 1 }, some { path
 example : (exInit {} [[97]]).map (fun r => decide (r.1 = 0) &&
     decide ((r.2.bufs.take 2).map (fun b => b.map (fun b => (b.path, b.id))) = [some ([97], 1), none]) &&
     decide (r.2.bufsCnt = 1) && checkIds r.2.bufs r.2.bufsCnt && checkPacked r.2.bufs) = some true := by
-  rw [exInit, show FUEL = 39 + 1 from rfl, ecEdit]; decide +kernel
+  rw [exInit, show ecEdit FUEL = ecEdit ((FUEL - 1) + 1) from rfl, ecEdit]; decide +kernel
 
 end Neatvi.Props.C20b
